@@ -23,3 +23,22 @@ Definition Triangle_evaluate_barycentric_py (d : nat) (v : list Qc) (l1 l2 l3 : 
   if verify_bary_py l1 l2 l3 then Some (tri_evaluate_barycentric_py d v l1 l2 l3) else None.
 Definition Triangle_evaluate_cartesian_py (d : nat) (v : list Qc) (s t : Qc) : option Qc :=
   if verify_cart_py s t then Some (tri_evaluate_cartesian_py d v s t) else None.
+
+(* ---- subdivide_nodes (triangle): tables for the degrees listed in the source, otherwise
+   specialize_triangle with the four weight triples read from the source.  Generic in the
+   arithmetic K and the embedding of the translated constants. *)
+Section Sub.
+Context {T : Type} (K : Ops T) (emb : Q -> T).
+Definition w3_of (l : list Q) : T * T * T :=
+  match l with [a; b; c] => (emb a, emb b, emb c) | _ => (o0 K, o0 K, o0 K) end.
+Definition tri_subdivide_generic (d : nat) (v : list T) : list (list T) :=
+  map (fun w => let '(a, b, c) := w in specialize_tri K d v (w3_of a) (w3_of b) (w3_of c)) tri_subdivide_weights.
+Definition tcols_gen (m : list (list Q)) : list (list T) := transpose (map (map emb) m).
+Definition tri_subdivide_gen (d : nat) (v : list T) : list (list T) :=
+  match lookup d tri_subdivide_dispatch with
+  | Some (A, B, C, D) => [matvec K v (tcols_gen A); matvec K v (tcols_gen B); matvec K v (tcols_gen C); matvec K v (tcols_gen D)]
+  | None => tri_subdivide_generic d v
+  end.
+End Sub.
+Definition tri_subdivide_py (d : nat) (v : list Qc) : list (list Qc) := tri_subdivide_gen QcOps Q2Qc d v.
+Definition tri_specialize_py (d : nat) (v : list Qc) (a b c : Qc * Qc * Qc) : list Qc := specialize_tri QcOps d v a b c.
